@@ -164,7 +164,12 @@ func modelSprintf(x *Run, fr *Frame, st *State, fn *ssa.Function, args []Val, si
 	} else if len(args) > 1 {
 		parts = append(parts, args[1])
 	}
-	return single(st, x.ufApply(st, fmt.Sprintf("m.sprintf%d", len(parts)), parts, fn.Signature.Results()))
+	r := x.ufApply(st, fmt.Sprintf("m.sprintf%d", len(parts)), parts, fn.Signature.Results())
+	if f, ok := x.litString(args[0].T); ok && f == "%x" && len(parts) == 2 && parts[1].Inner != nil && x.d.slices[parts[1].Inner.S] != "" {
+		// hex of a byte slice: two digits per byte
+		st.assume(eq(app("strlen", r.T), fmt.Sprintf("(* 2 %s)", x.sliceLen(*parts[1].Inner))))
+	}
+	return single(st, r)
 }
 
 func modelOnceDo(x *Run, fr *Frame, st *State, fn *ssa.Function, args []Val, site ssa.Instruction) []Outcome {
@@ -270,6 +275,15 @@ func (x *Run) lockOp(fr *Frame, st *State, mu Val, mode int, site ssa.Instructio
 			}
 		}
 	}
+	if owner != nil {
+		// remember lock-time values of guarded integer fields (NetDelta)
+		stt, _ := structOf(owner.Ty)
+		for i := 0; i < stt.NumFields(); i++ {
+			if x.spec.guardOf(owner.Ty, i) == mfield && x.d.sortOf(stt.Field(i).Type()) == SInt && !isRefType(stt.Field(i).Type()) {
+				st.ghost["lockval:"+x.fieldArr(owner.Ty, i)+":"+owner.Ref] = x.loadField(st, owner.Ref, owner.Ty, i).T
+			}
+		}
+	}
 	st.trace = append(st.trace, "lock")
 	return single(st, unit)
 }
@@ -288,6 +302,25 @@ func (x *Run) unlockOp(fr *Frame, st *State, mu Val, mode int, site ssa.Instruct
 	if owner != nil && st.held[key] == 1 {
 		for _, inv := range x.invariantsOf(owner.Ty, mfield) {
 			x.checkInvariant(fr, st, inv, owner, site)
+		}
+	}
+	if owner != nil && st.held[key] == 1 {
+		stt, _ := structOf(owner.Ty)
+		for i := 0; i < stt.NumFields(); i++ {
+			k := x.fieldArr(owner.Ty, i) + ":" + owner.Ref
+			if lv, ok := st.ghost["lockval:"+k]; ok && x.spec.guardOf(owner.Ty, i) == mfield {
+				cur := x.loadField(st, owner.Ref, owner.Ty, i).T
+				prev := st.ghost["delta:"+k]
+				if prev == "" {
+					prev = "0"
+				}
+				if cur != lv {
+					st.ghost["delta:"+k] = fmt.Sprintf("(+ %s (- %s %s))", prev, cur, lv)
+				} else {
+					st.ghost["delta:"+k] = prev
+				}
+				delete(st.ghost, "lockval:"+k)
+			}
 		}
 	}
 	delete(st.held, key)
